@@ -143,7 +143,55 @@ def _filt(f):
     return (kind, f.identifier)
 
 
+_FILTER_KIND = {"are_named": "named", "are_sub_modules_of": "sub", "have_name_matching": "regex"}
+
+
+def _intent_from_trace(rule):
+    """Subjects / objects as the caller specified them LAST (a kept rule prefix may be completed several times; the
+    last specification of a side is the rule).  None when the trace cannot tell (no trace, partial-name filters)."""
+    tr = rule.__dict__.get(TRACE_ATTR)
+    if not tr:
+        return None
+    slot, subs, objs = None, None, None
+    for name, args, res in tr:
+        if res != "ok":
+            continue
+        if name == "modules_that":
+            slot = "s"
+        elif name.startswith("import_") or name.startswith("be_imported_by_"):
+            slot = "o"
+        elif name == "have_name_containing":
+            return None
+        elif name in _FILTER_KIND and slot and args:
+            a = args[0]
+            names = a if isinstance(a, list) else [a]
+            if not all(isinstance(x, str) for x in names):
+                return None
+            flt = [(_FILTER_KIND[name], x) for x in names]
+            if slot == "s":
+                subs = flt
+            else:
+                objs = flt
+    if subs is None:
+        return None
+    return subs, objs
+
+
 def snapshot_rule(rule) -> dict:
+    cfg = _snapshot_rule_config(rule)
+    try:
+        intent = _intent_from_trace(rule)
+    except Exception:  # noqa: BLE001
+        intent = None
+    if intent is not None and not cfg["anything"]:
+        subs, objs = intent
+        if objs is not None and (subs != cfg["subs"] or objs != cfg["objs"]) and not any(k == "regex" for k, _ in cfg["subs"] + cfg["objs"]):
+            HUB.acc.count("rule_configuration_differs_from_what_the_caller_specified_last")
+            cfg["subs"], cfg["objs"] = subs, objs
+    return cfg
+
+
+def _snapshot_rule_config(rule) -> dict:
     c = rule._configuration
     verbs = [v for v in rrule.VERBS if getattr(c, v)]
     from pytestarch.rule_assessment.rule_check.rule_matcher import DefaultRuleMatcher
